@@ -411,6 +411,20 @@ func (g *ribGen) retargetCase() RCase {
 			c.Steps = append(c.Steps, RStep{K: "flush", NIs: [][]int{{1}, {2}, {3}, {1, 2}, {1, 2, 3}}[g.r.Intn(5)]})
 		}
 	}
+	if g.r.Chance(1, 2) {
+		// one instance is flushed while entries of the others may still point into it; its next-hop and groups are
+		// programmed again and then deleted (refused exactly while such an entry remains)
+		n := drv.Pick(g.r, nis...)
+		c.Steps = append(c.Steps, RStep{K: "flush", NIs: []int{n}})
+		add("add", drv.OpSpec{NI: n, Kind: "ADD", T: "nh", Key: 1})
+		for gi := uint64(1); gi <= 2; gi++ {
+			add("add", drv.OpSpec{NI: n, Kind: "ADD", T: "nhg", Key: gi, NHs: [][2]uint64{{1, 1}}})
+		}
+		for gi := uint64(1); gi <= 2; gi++ {
+			add("del", drv.OpSpec{NI: n, Kind: "DELETE", T: "nhg", Key: gi})
+		}
+		add("del", drv.OpSpec{NI: n, Kind: "DELETE", T: "nh", Key: 1})
+	}
 	return c
 }
 
